@@ -925,6 +925,34 @@ namespace hgraph
                                  !runtime.layout.has_input() ||
                                  ready_to_evaluate(view, evaluation_time);
 
+            // The scheduler bookkeeping runs on both exits. An exception that a
+            // surrounding boundary captures (try_except, a capturing map) must not
+            // leave the fired event at the head of the queue: the node would never
+            // be armed for any later wake-up again.
+            auto scheduler_epilogue = UnwindCleanupGuard([&] {
+                if (!has_scheduler) { return; }
+                auto         &graph = *view.graph_value();
+                NodeScheduler sched{*scheduler, &graph, view.node_index(), evaluation_time};
+                if (scheduled_now)
+                {
+                    sched.advance();  // consume the fired event(s) and re-arm the next
+                }
+                else if (sched.is_scheduled())
+                {
+                    if (sched.next_scheduled_time() < evaluation_time)
+                    {
+                        // The head fell due in a cycle that an exception abandoned before
+                        // this node was reached: it is history, drop it and re-arm the next.
+                        sched.advance();
+                    }
+                    else
+                    {
+                        // Ran for another reason (an input ticked): just re-arm the timer.
+                        graph.schedule_node(view.node_index(), sched.next_scheduled_time());
+                    }
+                }
+            });
+
             if (do_eval)
             {
                 if (callbacks(context).evaluate)
@@ -950,20 +978,7 @@ namespace hgraph
                 }
             }
 
-            if (has_scheduler)
-            {
-                auto         &graph = *view.graph_value();
-                NodeScheduler sched{*scheduler, &graph, view.node_index(), evaluation_time};
-                if (scheduled_now)
-                {
-                    sched.advance();  // consume the fired event(s) and re-arm the next
-                }
-                else if (sched.is_scheduled())
-                {
-                    // Ran for another reason (an input ticked): just re-arm the timer.
-                    graph.schedule_node(view.node_index(), sched.next_scheduled_time());
-                }
-            }
+            scheduler_epilogue.complete();
             return true;
         }
 
